@@ -26,6 +26,11 @@
 (***************************************************************************)
 EXTENDS Integers, Sequences, FiniteSets, TLC
 
+\* Bind(v, F) = F(v) with v evaluated ONCE: TLC re-evaluates a LET definition or an operator
+\* argument at every use when it depends on a state variable, but binds a quantified variable
+\* to a value.  Used wherever an expensive intermediate result is used many times.
+Bind(v, F(_)) == CHOOSE r \in {F(x) : x \in {v}} : TRUE
+
 \* ------------------------------------------------------------------ document
 Dom == <<
  [tag |-> "div",  id |-> "r", cls |-> {"a"},      attr |-> {},                par |-> 0],
@@ -130,14 +135,16 @@ NormAt(x, n) == IF n = 1 THEN x ELSE Norm(x)
 RECURSIVE PM(_, _), PS(_, _)
 PS(lists, n) ==      \* specificity of `&` referring to level n
   IF n = 0 THEN Z3
-  ELSE LET ps == PS(lists, n - 1) IN SMax({SpComplex(NormAt(lists[n][i], n), ps) : i \in 1..Len(lists[n])})
+  ELSE Bind(PS(lists, n - 1), LAMBDA ps : SMax({SpComplex(NormAt(lists[n][i], n), ps) : i \in 1..Len(lists[n])}))
 PM(lists, n) ==      \* the elements level n matches
   IF n = 0 THEN {}
-  ELSE LET pm == PM(lists, n - 1) IN
-       {e \in Elems : \E i \in 1..Len(lists[n]) : MComplex(NormAt(lists[n][i], n), e, pm)}
-NestedSpec(lists, e) ==    \* specificity with which the innermost rule applies to e
-  LET n == Len(lists)  pm == PM(lists, n - 1)  ps == PS(lists, n - 1) IN
+  ELSE Bind(PM(lists, n - 1), LAMBDA pm :
+            {e \in Elems : \E i \in 1..Len(lists[n]) : MComplex(NormAt(lists[n][i], n), e, pm)})
+NestedSpecWith(lists, e, pm, ps) ==
+  LET n == Len(lists) IN
   SMax({SpComplex(NormAt(lists[n][i], n), ps) : i \in {j \in 1..Len(lists[n]) : MComplex(NormAt(lists[n][j], n), e, pm)}})
+NestedSpec(lists, e) ==    \* specificity with which the innermost rule applies to e
+  NestedSpecWith(lists, e, PM(lists, Len(lists) - 1), PS(lists, Len(lists) - 1))
 
 \* ---- nesting by desugaring: & = :is(parent list)
 RECURSIVE DsCompound(_, _), DsPseudo(_, _), DsComplex(_, _)
@@ -151,15 +158,18 @@ DsComplex(x, plist) ==
   IF x[1].comb # "" THEN <<[comb |-> "", c |-> WithPs(Cp("", {}, ""), <<Ps("is", plist)>>)]>> \o body ELSE body
 RECURSIVE Flat(_, _)
 Flat(lists, n) == IF n = 1 THEN lists[1]
-                  ELSE LET pl == Flat(lists, n - 1) IN [i \in 1..Len(lists[n]) |-> DsComplex(Norm(lists[n][i]), pl)]
+                  ELSE Bind(Flat(lists, n - 1), LAMBDA pl : [i \in 1..Len(lists[n]) |-> DsComplex(Norm(lists[n][i]), pl)])
 FlatMatches(fl, e) == \E i \in 1..Len(fl) : MComplex(fl[i], e, {})
 FlatSpec(fl, e) == SMax({SpComplex(fl[i], Z3) : i \in {j \in 1..Len(fl) : MComplex(fl[j], e, {})}})
 
 \* the nested form and its desugaring select the same elements with the same specificity
 NestEquiv(lists) ==
-  LET n == Len(lists)  fl == Flat(lists, n)  pm == PM(lists, n) IN
-  \A e \in Elems : /\ FlatMatches(fl, e) <=> e \in pm
-                   /\ e \in pm => FlatSpec(fl, e) = NestedSpec(lists, e)
+  Bind(Flat(lists, Len(lists)), LAMBDA fl :
+  Bind(PM(lists, Len(lists)), LAMBDA pm :
+  Bind(PM(lists, Len(lists) - 1), LAMBDA pm1 :
+  Bind(PS(lists, Len(lists) - 1), LAMBDA ps1 :
+    \A e \in Elems : /\ FlatMatches(fl, e) <=> e \in pm
+                     /\ e \in pm => FlatSpec(fl, e) = NestedSpecWith(lists, e, pm1, ps1)))))
 
 \* features a selector list needs
 RECURSIVE FeatC(_), FeatFrom(_, _)
@@ -309,8 +319,12 @@ Vals ==
     unset  |-> [kind |-> "wide", canon |-> <<"unset">>, sp |-> <<Sp("unset"), Sp("UNSET")>>],
     inherit |-> [kind |-> "wide", canon |-> <<"inherit">>, sp |-> <<Sp("inherit")>>],
     initial |-> [kind |-> "wide", canon |-> <<"initial">>, sp |-> <<Sp("initial")>>],
-    cust1  |-> [kind |-> "custom", canon |-> <<"0.50">>, sp |-> <<Sp("0.50"), Sp(" 0.50 ")>>],
+    \* custom properties: token stream with numbers normalised and calc() reduced (units kept, colours as written)
+    cust1  |-> [kind |-> "custom", canon |-> <<"0.5">>, sp |-> <<Sp("0.50"), Sp(" 0.50 "), Sp(".5")>>],
     cust2  |-> [kind |-> "custom", canon |-> <<"#FF0000 0px">>, sp |-> <<Sp("#FF0000 0px"), Sp("#FF0000   0px")>>],
+    cust3  |-> [kind |-> "custom", canon |-> <<"rgb(255 0 0)">>, sp |-> <<Sp("rgb(255 0 0)")>>],
+    cust4  |-> [kind |-> "custom", canon |-> <<"0px">>, sp |-> <<Sp("0px"), Sp("0px "), Sp("+.0px"), Sp("0.0px")>>],
+    cust5  |-> [kind |-> "custom", canon |-> <<"2px">>, sp |-> <<Sp("2px"), Sp("calc(1px + 1px)")>>],
     varx   |-> [kind |-> "var", canon |-> <<"var(--x)">>, sp |-> <<Sp("var(--x)")>>] ]
 
 Sides == <<"top", "right", "bottom", "left">>
@@ -380,7 +394,7 @@ WFDecl(d) ==
      \/ s = "lh" /\ Len(ks) = 1 /\ ks[1] \in {"lhnum", "length"}
      \/ s = "bg" /\ Len(ks) = 1 /\ ks[1] = "color"
      \/ s = "display" /\ Len(ks) = 1 /\ ks[1] = "display"
-     \/ s = "custom" /\ Len(ks) = 1 /\ ks[1] \in {"custom", "color", "length", "var"}
+     \/ s = "custom" /\ Len(ks) = 1 /\ ks[1] \in {"custom", "var"}
 
 Canon(v) == Vals[v].canon
 \* 1-4 value expansion: value for side i (1 top, 2 right, 3 bottom, 4 left) of a list of n values
@@ -511,53 +525,62 @@ RECURSIVE TLess(_, _, _)
 TLess(a, b, i) == IF i > Len(a) THEN FALSE ELSE IF a[i] < b[i] THEN TRUE ELSE IF a[i] > b[i] THEN FALSE ELSE TLess(a, b, i + 1)
 KeyLess(a, b) == TLess(a, b, 1)
 
-\* what does not depend on the environment: for every rule item, whom it matches and how specifically
-RuleInfo(it) ==
-  IF it.k # "rule" THEN [m |-> [e \in Elems |-> <<-1, 0, 0>>], feats |-> {}]
-  ELSE LET fl == Flat(SelLists(it.path), Len(SelLists(it.path))) IN
+\* what does not depend on the environment: for every rule item, whom it matches and how
+\* specifically, its layer, and per declaration the features, importance and longhands
+RuleInfo(sh, ri, U) ==
+  LET it == sh[ri] IN
+  IF it.k # "rule" THEN [m |-> [e \in Elems |-> <<-1, 0, 0>>], feats |-> {}, layer |-> <<>>, d |-> <<>>]
+  ELSE Bind(Flat(SelLists(it.path), Len(SelLists(it.path))), LAMBDA fl :
        [m |-> [e \in Elems |-> IF FlatMatches(fl, e) THEN FlatSpec(fl, e) ELSE <<-1, 0, 0>>],
-        feats |-> PathFeats(it.path)]
-SheetInfo(sh) == [ri \in 1..Len(sh) |-> RuleInfo(sh[ri])]
+        feats |-> PathFeats(it.path),
+        layer |-> ItemLayer(sh, ri),
+        d |-> [di \in 1..Len(it.decls) |-> [f |-> DeclFeats(it.decls[di]), imp |-> IF it.decls[di].i THEN 1 ELSE 0,
+                                             ex |-> Expand(it.decls[di], U)]]])
+SheetInfo(sh) == Bind(Universe(sh), LAMBDA U : [ri \in 1..Len(sh) |-> RuleInfo(sh, ri, U)])
 
 NoWinner == <<>>
+Live(sh, info, env) == {ri \in 1..Len(sh) : /\ sh[ri].k = "rule"
+                                           /\ info[ri].feats \subseteq env.feats
+                                           /\ CondsTrueUpTo(sh[ri].path, Len(sh[ri].path), env)}
+\* candidates of an environment: <<rule, declaration>> pairs whose syntax the environment understands
+Cands(sh, info, env) == UNION {{<<ri, di>> : di \in {j \in 1..Len(sh[ri].decls) : info[ri].d[j].f \subseteq env.feats}} : ri \in Live(sh, info, env)}
+Ranks(sh, info, env) ==
+  Bind(Events(sh, 1, env), LAMBDA ev :
+       [ri \in Live(sh, info, env) |-> IF Len(ev) = 0 THEN 0 ELSE LayerRank(info[ri].layer, ev)])
+\* the cascade sort key of candidate c for element e: importance, layer (reversed when important), specificity, order
+CKey(info, rank, c, e) ==
+  LET imp == info[c[1]].d[c[2]].imp  s == info[c[1]].m[e] IN
+  <<imp, IF imp = 1 THEN 0 - rank[c[1]] ELSE rank[c[1]], s[1], s[2], s[3], c[1], c[2]>>
+Sets(info, c, lh) == \E x \in info[c[1]].d[c[2]].ex : x[1] = lh
+ValueOf(info, c, lh) == (CHOOSE x \in info[c[1]].d[c[2]].ex : x[1] = lh)[2]
 \* table of winners for one environment: [e -> [longhand -> canon or NoWinner]]
 WinTable(sh, info, env) ==
-  LET U == Universe(sh)
-      ev == Events(sh, 1, env)
-      live == {ri \in 1..Len(sh) : /\ sh[ri].k = "rule"
-                                   /\ info[ri].feats \subseteq env.feats
-                                   /\ CondsTrueUpTo(sh[ri].path, Len(sh[ri].path), env)}
-      rank == [ri \in live |-> LayerRank(ItemLayer(sh, ri), ev)]
-      \* candidates: <<ri, di, longhand, canon>>
-      cands == UNION {UNION {{<<ri, di, x[1], x[2]>> : x \in Expand(sh[ri].decls[di], U)}
-                             : di \in {j \in 1..Len(sh[ri].decls) : DeclFeats(sh[ri].decls[j]) \subseteq env.feats}} : ri \in live}
-      Key(c, e) == LET imp == IF sh[c[1]].decls[c[2]].i THEN 1 ELSE 0
-                       s == info[c[1]].m[e] IN
-                   <<imp, IF imp = 1 THEN 0 - rank[c[1]] ELSE rank[c[1]], s[1], s[2], s[3], c[1], c[2]>>
-  IN [e \in Elems |->
-       LET ce == {c \in cands : info[c[1]].m[e][1] >= 0} IN
-       [lh \in U |->
-          LET cl == {c \in ce : c[3] = lh} IN
-          IF cl = {} THEN NoWinner
-          ELSE (CHOOSE c \in cl : \A d \in cl : ~KeyLess(Key(c, e), Key(d, e)))[4]]]
+  Bind(Universe(sh), LAMBDA U :
+  Bind(Ranks(sh, info, env), LAMBDA rank :
+  Bind(Cands(sh, info, env), LAMBDA cands :
+    [e \in Elems |->
+       Bind({c \in cands : info[c[1]].m[e][1] >= 0}, LAMBDA ce :
+       Bind([c \in ce |-> CKey(info, rank, c, e)], LAMBDA key :
+         [lh \in U |->
+            Bind({c \in ce : Sets(info, c, lh)}, LAMBDA cl :
+                 IF cl = {} THEN NoWinner
+                 ELSE ValueOf(info, CHOOSE c \in cl : \A d \in cl : ~KeyLess(key[c], key[d]), lh))]))])))
+Winner(sh, env, e, lh) == WinTable(sh, SheetInfo(sh), env)[e][lh]
 
 \* the winning declaration is unique: the cascade order is total on the candidates
 WinnerUnique(sh, info, env) ==
-  LET U == Universe(sh)
-      ev == Events(sh, 1, env)
-      live == {ri \in 1..Len(sh) : sh[ri].k = "rule" /\ info[ri].feats \subseteq env.feats /\ CondsTrueUpTo(sh[ri].path, Len(sh[ri].path), env)}
-      rank == [ri \in live |-> LayerRank(ItemLayer(sh, ri), ev)]
-      cands == UNION {UNION {{<<ri, di, x[1]>> : x \in Expand(sh[ri].decls[di], U)}
-                             : di \in {j \in 1..Len(sh[ri].decls) : DeclFeats(sh[ri].decls[j]) \subseteq env.feats}} : ri \in live}
-      Key(c, e) == LET imp == IF sh[c[1]].decls[c[2]].i THEN 1 ELSE 0  s == info[c[1]].m[e] IN
-                   <<imp, IF imp = 1 THEN 0 - rank[c[1]] ELSE rank[c[1]], s[1], s[2], s[3], c[1], c[2]>>
-  IN \A e \in Elems : \A c, d \in {x \in cands : info[x[1]].m[e][1] >= 0} :
-        (c[3] = d[3] /\ c # d) => (KeyLess(Key(c, e), Key(d, e)) # KeyLess(Key(d, e), Key(c, e)))
+  Bind(Ranks(sh, info, env), LAMBDA rank :
+  Bind(Cands(sh, info, env), LAMBDA cands :
+    \A e \in Elems :
+      Bind({x \in cands : info[x[1]].m[e][1] >= 0}, LAMBDA ce :
+      Bind([c \in ce |-> CKey(info, rank, c, e)], LAMBDA key :
+        \A c, d \in ce : c # d => (KeyLess(key[c], key[d]) # KeyLess(key[d], key[c]))))))
 \* layer order is a strict total order
 LayerOrderTotal(sh, env) ==
-  LET ev == Events(sh, 1, env) S == LayerSet(ev) IN
-  /\ \A a, b \in S : a # b => (LayerLower(a, b, ev) # LayerLower(b, a, ev))
-  /\ \A a, b, c \in S : LayerLower(a, b, ev) /\ LayerLower(b, c, ev) => LayerLower(a, c, ev)
+  Bind(Events(sh, 1, env), LAMBDA ev :
+  Bind(LayerSet(ev), LAMBDA S :
+    /\ \A a, b \in S : a # b => (LayerLower(a, b, ev) # LayerLower(b, a, ev))
+    /\ \A a, b, c \in S : LayerLower(a, b, ev) /\ LayerLower(b, c, ev) => LayerLower(a, c, ev)))
 
 \* the environments that matter for a sheet
 EnvsOf(sh) == {[feats |-> f, conds |-> c] : f \in SUBSET SheetFeats(sh), c \in [SheetAtoms(sh) -> BOOLEAN]}
